@@ -12,6 +12,9 @@ import html as _html
 
 NUKE_AFTER = "~☢<"
 NUKE_BEFORE = ">☢~"
+# out-of-band stand-ins for the two markers inside the denotation (private-use code points)
+M_AFTER = "\ue000"
+M_BEFORE = "\ue001"
 
 
 def esc(s):
@@ -687,20 +690,20 @@ class Denote:
             tag = e["tag"] or "div"
             s = ""
             if ">" in e["marks"]:
-                s += NUKE_BEFORE
+                s += M_BEFORE
             s += "<" + tag + self.attrs(e, env, loc) + ">"
             if e["void"]:
                 return s
             if "<" in e["marks"]:
-                s += NUKE_AFTER
+                s += M_AFTER
             if content is not None:
                 s += self.content(content, env, loc)
             elif kids:
                 s += "\n" + self.nodes(kids, env, loc, children)
             if "<" in e["marks"]:
-                s += NUKE_BEFORE
+                s += M_BEFORE
             s += "</" + tag + ">"
-            s += NUKE_AFTER if ">" in e["marks"] else "\n"
+            s += M_AFTER if ">" in e["marks"] else "\n"
             return s
         if k in ("text", "script", "uscript", "utext"):
             return self.content(n, env, loc) + "\n"
@@ -753,15 +756,42 @@ class Denote:
             return self.nodes(body, env, cloc, cchildren)
         raise ValueError(k)
 
+    def raw(self, name, env):
+        """the document before whitespace removal, markers out of band"""
+        return self.nodes(self.templates[name]["body"], env, {}, None)
+
     def render(self, name, env):
-        raw = self.nodes(self.templates[name]["body"], env, {}, None)
-        return nuke(raw)
+        """what Render must write: layout decided by the template alone"""
+        return ideal_nuke(self.raw(name, env))
+
+    def render_inband(self, name, env):
+        """what results if the markers are ordinary text that dynamic values and literal text can form
+        (the implementation's mechanism; differs from [render] only when a marker look-alike occurs)"""
+        return inband_nuke(self.raw(name, env))
+
+
+_WS = "[\t\n\f\r ]*"
+
+
+def ideal_nuke(s):
+    import re
+    return re.sub(M_AFTER + _WS + "|" + _WS + M_BEFORE, "", s)
+
+
+def inband_nuke(s):
+    import re
+    s = s.replace(M_AFTER, NUKE_AFTER).replace(M_BEFORE, NUKE_BEFORE)
+    return re.sub(re.escape(NUKE_AFTER) + _WS + "|" + _WS + re.escape(NUKE_BEFORE), "", s)
+
+
+def lookalike_formed(raw):
+    """a marker sequence that does not stem from a whitespace-removal mark occurs in the raw document"""
+    plain = raw.replace(M_AFTER, "").replace(M_BEFORE, "")
+    return NUKE_AFTER in plain or NUKE_BEFORE in plain
 
 
 def nuke(s):
-    """the whitespace-removal markers: NukeAfter eats the white space after it, NukeBefore before it"""
-    import re
-    return re.sub(re.escape(NUKE_AFTER) + r"[\t\n\f\r ]*|[\t\n\f\r ]*" + re.escape(NUKE_BEFORE), "", s)
+    return inband_nuke(s)
 
 
 def uses(nodes, kinds, acc=None):
